@@ -1,8 +1,451 @@
-//! C02 — generator and driver of the real API.
+//! C02 — banded::Aligner, all nine entry points; one line = one history of calls on ONE aligner.
+//!
+//! `const => min:<MIN_SCORE>`
+//! `cap:<m>:<n>|cap:new kw:<k>:<w> sc:… w:… <call>;<call>;… => <aln>,h:same|differs;…`
+//! call = `<entry>,<x>,<y>[,<args>…]`:
+//!   custom | global | semiglobal | local         the four modes, backbone computed internally
+//!   prehash | sgprehash                          custom_with_prehash / semiglobal_with_prehash (hash_kmers(y, k))
+//!   tm                                           custom_with_matches(true k-mer matches)
+//!   sm,<bits>                                    custom_with_matches(subset: match i kept iff bit i%64 of <bits>)
+//!   fm,<x.y+x.y+…|->                             custom_with_matches(arbitrary sorted pairs with x+k<=m, y+k<=n)
+//!   exp,<n|0|1|3…>,<0|1>,<bits>                  custom_with_expanded_matches(subset, allowed_mismatches, union flag)
+//!   path,<bits>,<pbits>                          custom_with_match_path(subset, chain picked greedily from the
+//!                                                indices whose bit is set in <pbits>; index 0 if none)
+//!   big,<lx>,<ly>                                budget guard: x = 'A'^lx, y = 'C'^ly built here (custom entry;
+//!                                                the x and y fields of the call are ignored and must be `-`)
+use crate::c01::align_util::*;
 use crate::util::*;
+use bio::alignment::pairwise::banded::Aligner;
+use bio::alignment::pairwise::MIN_SCORE;
+use bio::alignment::sparse::{find_kmer_matches, hash_kmers};
+use bio::alignment::Alignment;
 
-pub fn gen(_tier: &str, _rng: &mut Rng, _out: &mut Vec<String>) {}
 
-pub fn exec(_toks: &[&str]) -> Result<String, String> {
-    Err("unimplemented".into())
+fn subset(ms: &[(u32, u32)], bits: u64) -> Vec<(u32, u32)> {
+    ms.iter().enumerate().filter(|(i, _)| (bits >> (i % 64)) & 1 == 1).map(|(_, &p)| p).collect()
+}
+
+fn chain(ms: &[(u32, u32)], pbits: u64, k: usize) -> Vec<usize> {
+    let mut path: Vec<usize> = vec![];
+    for (i, &(a, b)) in ms.iter().enumerate() {
+        if (pbits >> (i % 64)) & 1 == 0 {
+            continue;
+        }
+        match path.last() {
+            None => path.push(i),
+            Some(&l) => {
+                let (pa, pb) = ms[l];
+                let cont = a == pa + 1 && b == pb + 1;
+                let after = a >= pa + k as u32 && b >= pb + k as u32;
+                if cont || after {
+                    path.push(i);
+                }
+            }
+        }
+    }
+    if path.is_empty() && !ms.is_empty() {
+        path.push(0);
+    }
+    path
+}
+
+struct Call {
+    entry: String,
+    x: Vec<u8>,
+    y: Vec<u8>,
+    args: Vec<String>,
+}
+
+fn parse_call(c: &str, sc: &ScSpec, k: usize) -> Result<Call, String> {
+    let p: Vec<&str> = c.split(',').collect();
+    if p.len() < 3 {
+        return Err("call".into());
+    }
+    let entry = p[0].to_string();
+    let args: Vec<String> = p[3..].iter().map(|s| s.to_string()).collect();
+    let nargs = match p[0] {
+        "custom" | "global" | "semiglobal" | "local" | "prehash" | "sgprehash" | "tm" => 0,
+        "sm" | "fm" => 1,
+        "path" | "big" => 2,
+        "exp" => 3,
+        _ => return Err("entry".into()),
+    };
+    if args.len() != nargs {
+        return Err("call arity".into());
+    }
+    let (x, y) = if p[0] == "big" {
+        if p[1] != "-" || p[2] != "-" {
+            return Err("big: x and y must be -".into());
+        }
+        let (lx, ly): (usize, usize) = (parse(&args[0])?, parse(&args[1])?);
+        if lx > 4000 || ly > 4000 || sc.f.alpha.len() < 2 {
+            return Err("big: size".into());
+        }
+        (vec![sc.f.alpha[0]; lx], vec![sc.f.alpha[1]; ly])
+    } else {
+        let (x, y) = (unhex(p[1])?, unhex(p[2])?);
+        if x.len() > 64 || y.len() > 64 {
+            return Err("sequence too long".into());
+        }
+        (x, y)
+    };
+    if !sc.in_alphabet(&x) || !sc.in_alphabet(&y) {
+        return Err("symbol outside the alphabet".into());
+    }
+    match p[0] {
+        "sm" => {
+            parse::<u64>(&args[0])?;
+        }
+        "path" => {
+            parse::<u64>(&args[0])?;
+            parse::<u64>(&args[1])?;
+        }
+        "exp" => {
+            if args[0] != "n" {
+                let mm = parse::<usize>(&args[0])?;
+                if mm > 8 {
+                    return Err("allowed mismatches".into());
+                }
+            }
+            if args[1] != "0" && args[1] != "1" {
+                return Err("union flag".into());
+            }
+            parse::<u64>(&args[2])?;
+        }
+        "fm" => {
+            let ms = parse_pairs(&args[0])?;
+            for w in ms.windows(2) {
+                if w[0] >= w[1] {
+                    return Err("fm: not sorted".into());
+                }
+            }
+            for &(a, b) in &ms {
+                if a as usize + k > x.len() || b as usize + k > y.len() {
+                    return Err("fm: out of range".into());
+                }
+            }
+        }
+        _ => {}
+    }
+    Ok(Call { entry, x, y, args })
+}
+
+fn parse_pairs(s: &str) -> Result<Vec<(u32, u32)>, String> {
+    if s == "-" {
+        return Ok(vec![]);
+    }
+    s.split('+')
+        .map(|p| match p.split_once('.') {
+            Some((a, b)) => Ok((parse::<u32>(a)?, parse::<u32>(b)?)),
+            None => Err("pair".to_string()),
+        })
+        .collect()
+}
+
+fn run(al: &mut Aligner<TabFn>, c: &Call, k: usize) -> Alignment {
+    let (x, y) = (&c.x[..], &c.y[..]);
+    match c.entry.as_str() {
+        "custom" | "big" => al.custom(x, y),
+        "global" => al.global(x, y),
+        "semiglobal" => al.semiglobal(x, y),
+        "local" => al.local(x, y),
+        "prehash" => {
+            let h = hash_kmers(y, k);
+            al.custom_with_prehash(x, y, &h)
+        }
+        "sgprehash" => {
+            let h = hash_kmers(y, k);
+            al.semiglobal_with_prehash(x, y, &h)
+        }
+        "tm" => al.custom_with_matches(x, y, &find_kmer_matches(x, y, k)),
+        "sm" => {
+            let ms = subset(&find_kmer_matches(x, y, k), c.args[0].parse().unwrap());
+            al.custom_with_matches(x, y, &ms)
+        }
+        "fm" => al.custom_with_matches(x, y, &parse_pairs(&c.args[0]).unwrap()),
+        "exp" => {
+            let ms = subset(&find_kmer_matches(x, y, k), c.args[2].parse().unwrap());
+            let mm = if c.args[0] == "n" { None } else { Some(c.args[0].parse::<usize>().unwrap()) };
+            al.custom_with_expanded_matches(x, y, ms, mm, c.args[1] == "1")
+        }
+        "path" => {
+            let ms = subset(&find_kmer_matches(x, y, k), c.args[0].parse().unwrap());
+            let path = chain(&ms, c.args[1].parse().unwrap(), k);
+            al.custom_with_match_path(x, y, &ms, &path)
+        }
+        _ => unreachable!(),
+    }
+}
+
+pub fn exec(toks: &[&str]) -> Result<String, String> {
+    if toks == ["const"] {
+        return Ok(format!("min:{}", MIN_SCORE));
+    }
+    if toks.len() != 5 {
+        return Err("arity".into());
+    }
+    let kw: Vec<&str> = toks[1].split(':').collect();
+    if kw.len() != 3 || kw[0] != "kw" {
+        return Err("kw".into());
+    }
+    let (k, w): (usize, usize) = (parse(kw[1])?, parse(kw[2])?);
+    if k < 1 || k > 16 || w > 64 {
+        return Err("k/w outside the envelope".into());
+    }
+    let sc = parse_sc(toks[2], toks[3])?;
+    let mut calls = vec![];
+    for c in split_ne(toks[4], ';') {
+        calls.push(parse_call(c, &sc, k)?);
+    }
+    let mut al = match toks[0] {
+        "cap:new" => Aligner::with_scoring(sc.scoring(), k, w),
+        t => {
+            let p: Vec<&str> = t.split(':').collect();
+            if p.len() != 3 || p[0] != "cap" {
+                return Err("cap".into());
+            }
+            let (m, n): (usize, usize) = (parse(p[1])?, parse(p[2])?);
+            if m > 4096 || n > 4096 {
+                return Err("cap too large".into());
+            }
+            Aligner::with_capacity_and_scoring(m, n, sc.scoring(), k, w)
+        }
+    };
+    let mut outs = vec![];
+    for c in &calls {
+        let a = run(&mut al, c, k);
+        let h = if c.entry == "big" {
+            // the fresh-aligner comparison would double the cost of the two large cases
+            "same"
+        } else {
+            let mut fresh = Aligner::with_capacity_and_scoring(c.x.len(), c.y.len(), sc.scoring(), k, w);
+            let b = run(&mut fresh, c, k);
+            if a == b {
+                "same"
+            } else {
+                "differs"
+            }
+        };
+        outs.push(format!("{},h:{}", aln_string(&a), h));
+    }
+    Ok(outs.join(";"))
+}
+
+// ---------------------------------------------------------------------------------------------- generation
+
+fn gen_bits(rng: &mut Rng) -> u64 {
+    match rng.below(5) {
+        0 => u64::MAX,
+        1 => rng.next() & rng.next(), // sparse
+        2 => rng.next() | rng.next(), // dense
+        3 => 1u64 << rng.below(64),
+        _ => rng.next(),
+    }
+}
+
+/// related pair: x random, y a mutated copy, optionally with foreign flanks on either sequence
+fn gen_related(rng: &mut Rng, alpha: &[u8], maxlen: usize) -> (Vec<u8>, Vec<u8>) {
+    let n = 3 + rng.below(maxlen - 2);
+    let core = rng.seq(alpha, n);
+    let rate = *rng.pick(&[0usize, 5, 10, 20, 35]);
+    let mut x = core.clone();
+    let mut y = rng.mutate(&core, alpha, rate);
+    if rng.chance(1, 2) {
+        // flanks: the band then starts / ends inside the matrix
+        let mut flank = |rng: &mut Rng, s: &mut Vec<u8>| {
+            let a = rng.below(6);
+            let b = rng.below(6);
+            let mut t = rng.seq(alpha, a);
+            t.extend_from_slice(s);
+            t.extend(rng.seq(alpha, b));
+            *s = t;
+        };
+        if rng.chance(2, 3) {
+            flank(rng, &mut x);
+        }
+        if rng.chance(2, 3) {
+            flank(rng, &mut y);
+        }
+    }
+    if rng.chance(1, 6) {
+        // a long indel: the optimal path leaves a narrow band
+        let cut = rng.below(y.len() + 1);
+        let ins = 1 + rng.below(6);
+        let extra = rng.seq(alpha, ins);
+        y.splice(cut..cut, extra);
+    }
+    x.truncate(maxlen + 10);
+    y.truncate(maxlen + 10);
+    if rng.chance(1, 2) {
+        (x, y)
+    } else {
+        (y, x)
+    }
+}
+
+/// unrelated short pair (often without any k-mer match: the band is the whole matrix)
+fn gen_unrelated(rng: &mut Rng, alpha: &[u8], k: usize) -> (Vec<u8>, Vec<u8>) {
+    let maxlen = 9;
+    if alpha.len() >= 2 && rng.chance(1, 2) {
+        // disjoint sub-alphabets: no k-mer match for any k
+        let cut = 1 + rng.below(alpha.len() - 1);
+        let (a, b) = alpha.split_at(cut);
+        let (n1, n2) = (1 + rng.below(maxlen), rng.below(maxlen + 1));
+        let (x, y) = (rng.seq(a, n1), rng.seq(b, n2));
+        if rng.chance(1, 2) {
+            (x, y)
+        } else if y.is_empty() {
+            (x, y)
+        } else {
+            (y, x)
+        }
+    } else {
+        // same alphabet, short: for k >= 3 usually no common k-mer
+        let (n1, n2) = (1 + rng.below(maxlen), rng.below(maxlen + 1));
+        let _ = k;
+        (rng.seq(alpha, n1), rng.seq(alpha, n2))
+    }
+}
+
+fn gen_call(rng: &mut Rng, sc: &ScSpec, k: usize, maxlen: usize) -> String {
+    let alpha = &sc.f.alpha;
+    let (x, y) = if rng.chance(1, 3) { gen_unrelated(rng, alpha, k) } else { gen_related(rng, alpha, maxlen) };
+    // NOTE: neither sequence is ever empty here — `banded::Aligner::*` does not terminate (or reports
+    // MIN_SCORE) when x or y is empty (known findings C02-empty-*; representatives live in corpus/C02.txt,
+    // each costs a watchdog restart).  Remove this guard once the fix is in.
+    let x = if x.is_empty() { vec![alpha[0]] } else { x };
+    let y = if y.is_empty() { vec![alpha[alpha.len() - 1]] } else { y };
+    let head = |e: &str| format!("{},{},{}", e, hex(&x), hex(&y));
+    match rng.below(16) {
+        0 | 1 | 2 => head("custom"),
+        3 => head("global"),
+        4 => head("semiglobal"),
+        5 => head("local"),
+        6 => head("prehash"),
+        7 => head("sgprehash"),
+        8 => head("tm"),
+        9 | 10 => format!("{},{}", head("sm"), gen_bits(rng)),
+        11 => {
+            // arbitrary sorted in-range pairs
+            let mut ps = vec![];
+            if x.len() >= k && y.len() >= k {
+                for _ in 0..rng.below(6) {
+                    ps.push((rng.below(x.len() - k + 1) as u32, rng.below(y.len() - k + 1) as u32));
+                }
+            }
+            ps.sort_unstable();
+            ps.dedup();
+            let s = if ps.is_empty() {
+                "-".to_string()
+            } else {
+                ps.iter().map(|(a, b)| format!("{}.{}", a, b)).collect::<Vec<_>>().join("+")
+            };
+            format!("{},{}", head("fm"), s)
+        }
+        12 | 13 => format!(
+            "{},{},{},{}",
+            head("exp"),
+            rng.pick(&["n", "0", "1", "3"]),
+            rng.below(2),
+            if rng.chance(1, 2) { u64::MAX } else { gen_bits(rng) }
+        ),
+        _ => format!("{},{},{}", head("path"), if rng.chance(1, 2) { u64::MAX } else { gen_bits(rng) }, gen_bits(rng)),
+    }
+}
+
+fn gen_cap(rng: &mut Rng) -> String {
+    match rng.below(5) {
+        0 => "cap:0:0".into(),
+        1 => "cap:new".into(),
+        2 => "cap:100:100".into(),
+        _ => format!("cap:{}:{}", rng.below(30), rng.below(30)),
+    }
+}
+
+fn gen_sc(rng: &mut Rng) -> ScSpec {
+    // k-mer chains need a few symbols; keep 2-4 letter alphabets
+    loop {
+        let mut sc = gen_scspec(rng);
+        if sc.f.alpha.len() == 1 {
+            continue;
+        }
+        if rng.chance(1, 3) {
+            // the classical unit scheme on 4 letters (realistic bands)
+            let alpha = b"ACGT".to_vec();
+            let mut idx = vec![usize::MAX; 256];
+            let mut tab = vec![-1i32; 16];
+            for (i, &c) in alpha.iter().enumerate() {
+                idx[c as usize] = i;
+                tab[i * 4 + i] = 1;
+            }
+            sc.f = TabFn { alpha, idx, tab };
+        }
+        return sc;
+    }
+}
+
+pub fn gen(tier: &str, rng: &mut Rng, out: &mut Vec<String>) {
+    let thorough = tier == "thorough";
+    let nhist = if thorough { 60000 } else { 4500 };
+    for i in 0..nhist {
+        let sc = gen_sc(rng);
+        let k = 1 + rng.below(4);
+        let w = rng.below(5);
+        let maxlen = [12, 20, 30, 40][i % 4];
+        let ncalls = 1 + rng.below(6);
+        let calls: Vec<String> = (0..ncalls).map(|_| gen_call(rng, &sc, k, maxlen)).collect();
+        out.push(format!("{} kw:{}:{} {} {}", gen_cap(rng), k, w, sc.tokens(), calls.join(";")));
+    }
+    // budget guard: disjoint alphabets (no k-mer match: the band is the whole matrix)
+    //   2300 x 2300: 2301² = 5 294 601 cells > 5 000 000 → the sentinel is the only accepted answer
+    //   2200 x 2200: 2201² = 4 844 401 cells           → a real alignment (validity and recomputed score checked)
+    let unit = "sc:-5:-1:0:0:0:0 w:4143:1,-1,-1,1";
+    out.push(format!("cap:0:0 kw:{}:{} {} big,-,-,2300,2300", 1 + rng.below(4), rng.below(5), unit));
+    out.push(format!("cap:0:0 kw:{}:{} {} big,-,-,2200,2200", 1 + rng.below(4), rng.below(5), unit));
+    if thorough {
+        // exhaustive small scope: x (non-empty), y over {A,C} up to length 5, k <= 2, w <= 2, 6 schemes, entry
+        // points in rotation; one x against every y per history
+        let seqs = enum_seqs(b"AC", 5);
+        let schemes: [(i32, i32, [i32; 4], [i32; 4]); 6] = [
+            (-2, -1, [MIN_SCORE; 4], [1, -1, -1, 1]),
+            (-2, -1, [0, 0, 0, 0], [1, -1, -1, 1]),
+            (-1, -1, [-1, MIN_SCORE, 0, -2], [2, -1, -1, 2]),
+            (0, -1, [MIN_SCORE, -1, -2, 0], [1, -2, -2, 1]),
+            (-3, 0, [-1, -1, -1, -1], [2, 1, -3, 0]),
+            (-2, -2, [0, MIN_SCORE, MIN_SCORE, 0], [1, -1, -1, 1]),
+        ];
+        let entries = ["custom", "global", "semiglobal", "local", "prehash", "sgprehash", "tm", "custom"];
+        let mut rot = 0usize;
+        for (go, ge, clips, tab) in schemes {
+            for k in 1..=2 {
+                for w in 0..=2 {
+                    for x in seqs.iter().filter(|s| !s.is_empty()) {
+                        let calls: Vec<String> = seqs
+                            .iter()
+                            .filter(|y| !y.is_empty()) // empty sequences: known finding, corpus only
+                            .map(|y| {
+                                rot += 1;
+                                format!("{},{},{}", entries[rot % entries.len()], hex(x), hex(y))
+                            })
+                            .collect();
+                        out.push(format!(
+                            "cap:{}:{} kw:{}:{} sc:{}:{}:{}:{}:{}:{} w:4143:{} {}",
+                            rot % 4,
+                            rot % 3,
+                            k,
+                            w,
+                            go,
+                            ge,
+                            clips[0],
+                            clips[1],
+                            clips[2],
+                            clips[3],
+                            join(&tab, ","),
+                            calls.join(";")
+                        ));
+                    }
+                }
+            }
+        }
+    }
 }
